@@ -61,27 +61,42 @@ structure ProcObs where
   recv : Nat := 0
   /-- result lines of fired requests that carry a net error (connection trouble: the request may not have reached the target) -/
   errs : Nat := 0
+  /-- per pool, in the order of the config: result lines that are not discarded samples, discarded samples, malformed ones -/
+  pools : List (Nat × Nat × Nat) := []
 deriving Repr
 
-/-- mode=proc: `given` = what the pool section of the config says about discard_overflow. With one instance, all tokens
-at the start and a target slower than 2 s / 3 per answer, the fourth and later tokens are more than 2 s late whatever the
-machine load is: a run with discard_overflow on (`effectiveDiscard given`) must contain a discarded sample (tag and net code
-both right), one with it off none, and every token must show up exactly once. -/
-def judgeProc (given : Option Bool) (o : ProcObs) : String :=
+/-- one pool of a mode=proc run: `given` = what ITS section of the config says about discard_overflow, `total` = tokens of its
+profile. With one instance, all tokens at the start and a target slower than 2 s / 3 per answer, the fourth and later tokens are more
+than 2 s late whatever the machine load is: a pool with discard_overflow on (`effectiveDiscard given`) must show a discarded sample
+(tag and net code both right), one with it off none, and every token must show up exactly once. -/
+def judgePool (given : Option Bool) (total idx : Nat) (p : Nat × Nat × Nat) : Option String :=
+  let (fired, disc, bad) := p
+  if effectiveDiscard given then
+    if bad > 0 then some s!"fail:discard-sample:bad={bad} in pool {idx}"
+    else if fired + disc != total then
+      some s!"fail:lost-token:fired={fired},discarded={disc},total={total}: tokens of pool {idx} were neither fired nor reported as discarded"
+    else if disc == 0 then
+      some s!"fail:late-fired:pool {idx} without any discarded sample although discard_overflow is on by default or explicitly; fired={fired},discarded={disc}"
+    else none
+  else
+    if disc > 0 then some s!"fail:discard-off:discarded={disc} in pool {idx}"
+    else if fired != total then some s!"fail:not-all-fired:fired={fired},total={total} in pool {idx}"
+    else none
+
+/-- mode=proc: `givens` = what the pool sections say about discard_overflow (one value for all pools, or one per pool). -/
+def judgeProc (givens : List (Option Bool)) (o : ProcObs) : String :=
   if o.rc != "0" then s!"skip:pandora-process-did-not-finish-normally-rc={o.rc}"
   -- "not fired but reported as a discarded sample": every result line that is not a discarded sample is a request the target
   -- received, and a discarded token never reaches the target
   else if o.errs == 0 && o.recv != o.fired then
     s!"fail:discard-sample:{o.fired} result lines are not discarded samples but the target received {o.recv} requests (discarded={o.disc})"
-  else if effectiveDiscard given then
-    if o.bad > 0 then s!"fail:discard-sample:bad={o.bad}"
-    else if o.minDisc == 0 then s!"fail:late-fired:a pool without any discarded sample although discard_overflow is on by default or explicitly; fired={o.fired},discarded={o.disc}"
-    else if o.fired + o.disc != o.total then s!"fail:lost-token:fired={o.fired},discarded={o.disc},total={o.total}"
-    else "ok"
+  else if o.pools.isEmpty then "fail:crash:no per-pool counts in the observation"
   else
-    if o.disc > 0 then s!"fail:discard-off:discarded={o.disc}"
-    else if o.fired != o.total then s!"fail:not-all-fired:fired={o.fired},total={o.total}"
-    else "ok"
+    let total := o.total / o.pools.length
+    let givenOf := fun (k : Nat) => if givens.length == 1 then givens.head?.getD none else (givens[k]?).getD none
+    match (o.pools.zipIdx.filterMap fun (p, k) => judgePool (givenOf k) total k p).head? with
+    | some v => v
+    | none => "ok"
 
 def sortInts (l : List Int) : List Int := l.mergeSort (fun a b => decide (a ≤ b))
 
